@@ -87,6 +87,16 @@ _WHERE = {
             "and label, CPython.",
             "TLA+ spec (Normalize/NormalizeOps) model-checked with TLC; TLC-generated histories replayed into the code; "
             "recorded histories validated by TLC trace spec (ListTrace)"),
+    "C16": ("classstyle", "C16",
+            "TLC explores every history of add_class / remove_class / has_class / add_style up to the bound from every "
+            "initial class value over a whitespace-bearing alphabet, with tokens that are substrings of one another, and "
+            "checks the code-shaped operators against the token algebra (and css() against its per-character key "
+            "mapping for all keyword sequences); every explored history and seeded random histories are run on a real "
+            "Tag and TLC judges each step from the logged state before it.",
+            "Trusted: TLC/SANY, Split/Without/AddClassOk/RemoveClassOk/CssSpec in spec/ClassStyleOps.tla, the projection "
+            "tag.attrs.get(name), CPython.",
+            "TLA+ spec (ClassStyle/ClassStyleOps) model-checked with TLC; TLC-generated histories replayed into the "
+            "code; recorded histories validated by TLC trace spec (ClassTrace)"),
 }
 
 NOT_YET = {}
